@@ -38,7 +38,13 @@ W0(o) == [readers |-> [r \in 1..Len(o.readers) |-> NewReader(o.readers[r])],
 
 ActStep(o, W, a) ==
   IF "err" \in DOMAIN a THEN [v |-> "raised", W |-> W]
-  ELSE IF a.op = "open" THEN [v |-> "ok", W |-> [W EXCEPT !.gens = Append(@, NewGen(a.r, o.files[a.f]))]]
+  ELSE IF a.op = "open" THEN
+    \* making a request reads the version bytes only: no table pair changes (the pairs the properties pin are compared)
+    [v |-> IF \E r \in 1..Len(o.readers) :
+                 LET st == W.settled[TabId(r, o.readers[r])] IN
+                 st.known /\ (~SameTable(a.tabs[r][1], st.t.tpid) \/ ~SameTable(a.tabs[r][2], st.t.pname))
+           THEN "request-changed-tables" ELSE "ok",
+     W |-> [W EXCEPT !.gens = Append(@, NewGen(a.r, o.files[a.f]))]]
   ELSE LET g  == W.gens[a.g]
            id == TabId(g.r, o.readers[g.r])
            x  == Adv(W.readers[g.r], W.tables[id], g)
